@@ -2,6 +2,7 @@
 import ast
 
 from ..core import astutil as A
+from ..core import match as M
 from ..core.cfg import cfg_of
 from ..core.model import dotted
 
@@ -27,6 +28,18 @@ def os_calls(fn, names=None):
     return out
 
 
+def from_location(fn, expr, seen=None):
+    """expr reads an entry's `.location`, directly or through locals of fn assigned from such an expression"""
+    seen = set() if seen is None else seen
+    if any(isinstance(n, ast.Attribute) and n.attr == "location" for n in ast.walk(expr)):
+        return True
+    for name in sorted(A.names_in(expr) - seen):
+        seen.add(name)
+        if any(from_location(fn, v, seen) for _, v, _ in A.assignments(fn.node, name) if isinstance(v, ast.expr)):
+            return True
+    return False
+
+
 def run(ctx):
     P = ctx.program
     ctx.explanation = META["level"]
@@ -36,6 +49,8 @@ def run(ctx):
     for need in ("os.lchown", "os.chmod", "os.utime"):
         ctx.require(need in calls, f"ensure_perms: {need} call not found")
     # ---- R1 ----------------------------------------------------------------
+    ctx.require(len(ep.params()) >= 2, "ensure_perms: (entry, live-object) parameters not found")
+    entry, live = ep.params()[:2]
     for first, second in (("os.lchown", "os.chmod"), ("os.lchown", "os.utime"), ("os.chmod", "os.utime")):
         back = calls[first] in g.reach([calls[second]])
         fwd = calls[second] in g.reach([calls[first]])
@@ -43,15 +58,18 @@ def run(ctx):
                   f"ensure_perms can run {second} before {first}: a chown after chmod clears the setuid/setgid bits the package recorded", node=calls[second].ast)
     for d in ("os.chmod", "os.utime"):
         c = [x for n_, x in os_calls(ep) if n_ == d][0]
-        guard = [p for p in A.parents(c) if isinstance(p, ast.If) and "issym" in A.unparse(p.test)]
-        ok = bool(guard) and A.unparse(guard[0].test).startswith("not ") and any(A.contains_node(s, c) for s in guard[0].body)
+        guard = [p for p in A.parents(c) if isinstance(p, ast.If) and M.pat(f"not fs.issym({entry})").matches(p.test)]
+        ok = bool(guard) and any(A.contains_node(s, c) for s in guard[0].body)
         ctx.check("R1", ep, ok, f"symlink-skips:{d}", f"ensure_perms never calls {d} on a symlink entry", node=c)
-    keep = [n for n in A.body_walk(ep.node) if isinstance(n, ast.If) and "isdir(d1)" in A.unparse(n.test) and "isdir(d2)" in A.unparse(n.test)]
-    ok = bool(keep) and isinstance(keep[0].test, ast.BoolOp) and isinstance(keep[0].test.op, ast.And) and any(A.unparse(s) == "do_mode = False" for s in keep[0].body)
+    # the local that switches chmod on/off is whatever guards the chmod call together with "a mode is recorded"
+    sw = M.one(ep.node, f"if $do_mode and $m is not None:\n    os.chmod({entry}.location, $m)")
+    keep = [n for n in A.body_walk(ep.node) if isinstance(n, ast.If) and M.pat(f"fs.isdir({entry}) and fs.isdir({live})").matches(n.test)]
+    sets = [v for _, v, _ in A.assignments(keep[0], sw["do_mode"])] if keep and sw is not None else []   # assignments in the if-branch only
+    ok = bool(sets) and all(A.is_const(v, False) for v in sets)
     ctx.check("R1", ep, ok, "existing-dir-keeps-mode", "a directory that already exists keeps its own mode")
     # every call targets the entry's own location
     for d, c in os_calls(ep):
-        ctx.check("R1", ep, A.unparse(c.args[0]) == f"{ep.params()[0]}.location", f"target:{d}", f"{d} is applied to the entry's own location", node=c)
+        ctx.check("R1", ep, A.unparse(c.args[0]) == f"{entry}.location", f"target:{d}", f"{d} is applied to the entry's own location", node=c)
     ctx.floor("R1", 9)
 
     # ---- R2 merge_contents ------------------------------------------------------------
@@ -62,10 +80,15 @@ def run(ctx):
     wl = whiles[0]
     dir_loop = [n for n in body if isinstance(n, ast.For)]
     ctx.require(dir_loop and dir_loop[0].lineno < wl.lineno, "merge_contents: directory pass not found before the file pass")
-    sorts = [n for n in body if isinstance(n, ast.Expr) and A.unparse(n.value).endswith(".sort()") and n.lineno < dir_loop[0].lineno]
+    file_loops = [n for n in ast.walk(wl) if isinstance(n, ast.For)]
+    ctx.require(len(file_loops) == 1 and isinstance(file_loops[0].target, ast.Name), "merge_contents: loop over the non-directory entries not found inside the retry loop")
+    fl = file_loops[0]
+    xv = fl.target.id                      # the entry being merged, however the loop variable is spelled
+    diter, fiter = A.unparse(dir_loop[0].iter), A.unparse(fl.iter)
+    sorts = [n for n in body if isinstance(n, ast.Expr) and M.pat("$d.sort()").matches(n.value, {"d": diter}) and n.lineno < dir_loop[0].lineno]
     ctx.check("R2", mc, bool(sorts), "dirs-sorted", "directories are sorted (parents first) before being created")
-    dsrc = [v for t, v, _ in A.assignments(mc.node) if isinstance(t, ast.Name) and "iterdirs()" in A.unparse(v)]
-    fsrc = [v for t, v, _ in A.assignments(mc.node) if isinstance(t, ast.Name) and "iterdirs(invert=True)" in A.unparse(v)]
+    dsrc = [v for t, v, st in A.assignments(mc.node, diter) if M.has(v, "cset.iterdirs()") and st.lineno < dir_loop[0].lineno]
+    fsrc = [v for t, v, st in A.assignments(mc.node, fiter) if M.has(v, "cset.iterdirs(invert=True)") and st.lineno < wl.lineno]
     ctx.check("R2", mc, bool(dsrc) and bool(fsrc), "two-passes", "directories come from iterdirs(), everything else from iterdirs(invert=True)")
     tbl = [(t, v, st) for t, v, st in A.assignments(mc.node) if isinstance(t, ast.Name) and isinstance(v, ast.Dict) and not v.keys]
     cand = [c for c in A.calls(wl) if A.call_attr(c) == "setdefault"]
@@ -77,16 +100,17 @@ def run(ctx):
     ctx.check("R2", mc, not inside and decl[0].lineno < wl.lineno, "hardlink-table-outlives-retry",
               "the hardlink-candidate table is created once, before the retry loop",
               f"`{tname} = {{}}` is (re)created inside the retry loop: after a tolerated symlink-over-directory conflict the table is reset and later members of a hardlink group are copied as new inodes", node=decl[0])
-    keys = [v for t, v, _ in A.assignments(mc.node) if isinstance(t, ast.Name) and A.unparse(t) == A.unparse(cand[0].args[0])]
-    ctx.check("R2", mc, bool(keys) and A.unparse(keys[0]) == "(x.dev, x.inode)", "hardlink-key", "hardlink candidates are keyed by (dev, inode) of the source entry")
-    anyc = [c for c in A.calls(wl) if dotted(c.func) == "any"]
-    ok = bool(anyc) and "_can_be_hardlinked(x)" in A.unparse(anyc[0]) and "do_link(target, x)" in A.unparse(anyc[0])
-    ctx.check("R2", mc, ok, "hardlink-attempt", "a file is linked to an earlier member only if their recorded attributes allow it and do_link succeeds")
+    # roles inside the file pass: $key = the table key, $cands = the group's earlier members, $x = the entry
+    grp = M.one(fl, "$cands = $tbl.setdefault($key, [])", {"tbl": tname})
+    keys = [v for t, v, _ in A.assignments(fl, grp["key"])] if grp else []
+    ctx.check("R2", mc, bool(keys) and all(M.pat("($x.dev, $x.inode)").matches(v, {"x": xv}) for v in keys), "hardlink-key", "hardlink candidates are keyed by (dev, inode) of the source entry")
+    att = M.one(fl, "if any(($t._can_be_hardlinked($x) and do_link($t, $x) for $t in $cands)):\n    continue\n$cands.append($x)", {"x": xv, "cands": grp["cands"]}) if grp else None
+    ctx.check("R2", mc, att is not None, "hardlink-attempt", "a file is linked to an earlier member only if their recorded attributes allow it and do_link succeeds")
     cf = [c for c in A.calls(wl) if dotted(c.func) == "copyfile"]
-    ok = len(cf) == 1 and A.unparse(cf[0].args[0]) == "x" and any(k.arg == "mkdirs" and A.try_literal(k.value) is True for k in cf[0].keywords)
+    ok = len(cf) == 1 and M.pat("copyfile($x, mkdirs=True)").matches(cf[0], {"x": xv}) is not None and getattr(A.stmt_of(cf[0]), "_parent", None) is fl
     ctx.check("R2", mc, ok, "copies-rest", "every other non-directory entry goes through copyfile(x, mkdirs=True)")
     cont = [n for n in ast.walk(wl) if isinstance(n, ast.Continue)]
-    ctx.check("R2", mc, len(cont) == 1 and isinstance(getattr(cont[0], "_parent", None), ast.If) and "do_link" in A.unparse(cont[0]._parent.test), "skip-only-when-linked", "copyfile is skipped only when a hardlink was made")
+    ctx.check("R2", mc, len(cont) == 1 and att is not None and getattr(cont[0], "_parent", None) is att.node, "skip-only-when-linked", "copyfile is skipped only when a hardlink was made")
     ctx.floor("R2", 7)
 
     # ---- R3 copyfile applies metadata to the path it wrote ---------------------------------
@@ -121,9 +145,7 @@ def run(ctx):
         f = P.func(MOD, fname)
         for d, c in os_calls(f):
             ctx.check("R4", f, d in allowed, f"primitive:{d}", f"{fname} uses allow-listed primitive {d}", f"{fname} calls {d}, which is not on the merge path's allow-list {sorted(allowed)}", node=c)
-            pa = A.unparse(c.args[0]) if c.args else ""
-            names = A.names_in(c)
-            ok = any(x in pa for x in (".location", "fp", "path")) or d in ("os.rename", "os.link", "os.symlink")
+            ok = bool(c.args) and from_location(f, c.args[0]) or d in ("os.rename", "os.link", "os.symlink")
             ctx.check("R4", f, ok, f"path-arg:{d}", f"{d}'s path derives from the entry's location", f"{fname}: `{A.unparse(c)[:60]}` operates on a path that does not derive from the entry", node=c)
     unl = [c for d, c in os_calls(mc) if d == "os.unlink"]
     ok = len(unl) == 1 and any(isinstance(p, ast.ExceptHandler) and "FileExistsError" in A.unparse(p.type) for p in A.parents(unl[0]))
